@@ -234,6 +234,9 @@ def phases(g="g", r="r", l=None, basis="ground-rydberg", eom=True):
     if eom:
         A += [
             ("enable_eom", g, 2.0, 0.0, 0.0, False),
+            # drift-corrected ENABLING at a setpoint whose off-detuning is far from zero: the reference only drifts from where the buffer
+            # starts - by nothing at all on a channel that has not played anything yet
+            ("enable_eom", g, 20.0, 0.0, -40.0, True),
             ("eom_pulse", g, 52, 0.5, 1.0, "min-delay", False),
             ("modify_eom", g, 3.0, -1.0, -20.0, True),  # drift-corrected change of setpoint (shift of the reference)
             # drift-corrected pulse with another phase: the phase-jump wait before it is rounded to the clock / minimum duration, and the
